@@ -239,7 +239,7 @@ func genScenario(o world.Opts) *Scenario {
 			name = []string{"plg%sx", "50%off", "plg.v2", "plg_%d%v", "plg+x"}[simrt.Choice("plugin.odd-name-pick", 5)] + fmt.Sprint(i)
 		}
 		sc.Plugins = append(sc.Plugins, genScript(name, faultP, i))
-		sc.Plugins[i].ModSuffix = "/" + sc.Prog.Files[0].RelPath()
+		sc.Plugins[i].ModSuffix = "/" + sc.Prog.Files[0].RelPath() // genC17 may move the file and sets this again
 	}
 	if o.Prop == "C17" {
 		if np >= 2 && simrt.Flip("c17.same-plugin-twice", 0.15) {
